@@ -14,15 +14,23 @@ import threading
 import time
 
 VERIF = "/verif"
-REPO = "/repo"
+REPO = os.environ.get("VERIF_E2E_REPO", "/repo")  # mutant runs point this at a scratch worktree
 WORK = f"{VERIF}/work"
 E2E = f"{VERIF}/engines/e2e"
-APP = f"{E2E}/app"
-PAVEXC = f"{WORK}/target-repo/release/pavexc"
+TARGET_REPO = f"{WORK}/target-repo" if REPO == "/repo" else f"{WORK}/target-repo-{hashlib.sha256(REPO.encode()).hexdigest()[:8]}"
+PAVEXC = f"{TARGET_REPO}/release/pavexc"
 BPGEN = f"{WORK}/target-verif/release/bpgen"
 HOME = f"{WORK}/homes/shared"
 DOCS_TOOLCHAIN = "pavex-verif-docs"
 NSLOTS = int(os.environ.get("VERIF_SLOTS", "16"))
+# Namespace for scratch directories, so that several orchestrator processes (e.g. a developer run next
+# to a registered check) do not share slot workspaces or cargo target dirs. Empty for registered checks.
+NS = os.environ.get("VERIF_E2E_NS", "")
+WSROOT = f"{WORK}/ws{NS}"
+E2E_WORK = f"{WORK}/e2e{NS}"
+BATCH_TARGET = f"{WORK}/target-batch{NS}"
+OBS_ROOT = f"{WORK}/obs{NS}"
+APP = f"{E2E}/app" if not NS else f"{WORK}/app{NS}"
 PAVEXC_TIMEOUT_S = 120
 
 
@@ -80,9 +88,9 @@ def tree_hash():
             dirs[:] = sorted(d for d in dirs if d not in ("target", "ui_tests", ".git", "node_modules"))
             for fn in sorted(fs):
                 files.append(os.path.join(root, fn))
-    for fn in sorted(os.listdir(E2E)):
-        if fn.endswith(".py") or fn.endswith(".rs"):
-            files.append(os.path.join(E2E, fn))
+    # harness files that influence what is *observed* (oracles.py / report.py only evaluate)
+    for fn in ("gen_app.py", "families.py", "lib_e2e.py", "runner_main.rs", "refmodel.py", "orchestrator.py", "special.py"):
+        files.append(os.path.join(E2E, fn))
     files.append(f"{VERIF}/engines/e2e_tools/src/bin/bpgen.rs")
     for p in files:
         try:
@@ -112,7 +120,7 @@ def ensure_built():
     """Rebuild pavexc + tools from /repo's working tree (cargo no-op if unchanged); regenerate the app."""
     t0 = time.time()
     e = base_env()
-    e["CARGO_TARGET_DIR"] = f"{WORK}/target-repo"
+    e["CARGO_TARGET_DIR"] = TARGET_REPO
     r = run(["cargo", "build", "--release", "--offline", "-p", "pavexc_cli"], cwd=REPO, env=e)
     if r.returncode != 0:
         sys.stderr.write(r.stdout[-6000:])
@@ -153,7 +161,7 @@ members = ["holder"]
 
 
 def slot_dir(k, root=None):
-    return f"{root or WORK + '/ws'}/slot{k}"
+    return f"{root or WSROOT}/slot{k}"
 
 
 def ensure_slot(k, root=None):
@@ -208,7 +216,7 @@ def warm_cache():
     s = ensure_slot(0)
     spec = {"id": "warm", "bp": {"ops": [{"k": "ctor", "c": "C_T0P__0__S", "lc": "request_scoped"},
                                          {"k": "route", "c": "H0__PR_0_0__I"}]}}
-    d = f"{WORK}/e2e/warm"
+    d = f"{E2E_WORK}/warm"
     os.makedirs(d, exist_ok=True)
     write_blueprints([spec], d)
     t0 = time.time()
@@ -400,7 +408,7 @@ def build_batches(specs_ok, gen_dir, batch_root, batch_size=150):
     batches = [ids[i:i + batch_size] for i in range(0, len(ids), batch_size)]
     build_res = {}
     runners = []
-    target = f"{WORK}/target-batch"
+    target = BATCH_TARGET
 
     def prep(bi, batch):
         bd = f"{batch_root}/b{bi}"
@@ -414,7 +422,7 @@ def build_batches(specs_ok, gen_dir, batch_root, batch_size=150):
                 man = f.read()
             origin = open(f"{gen_dir}/{sid}/origin").read().strip() if os.path.exists(f"{gen_dir}/{sid}/origin") else None
             with open(f"{bd}/{cn}/Cargo.toml", "w") as f:
-                f.write(rewrite_manifest(man, cn, origin or f"{WORK}/ws/slot0/sdk"))
+                f.write(rewrite_manifest(man, cn, origin or f"{WSROOT}/slot0/sdk"))
             members.append(cn)
         with open(f"{bd}/Cargo.toml", "w") as f:
             f.write(BATCH_WS_TOML % ", ".join(f'"{m}"' for m in members))
